@@ -39,11 +39,14 @@ def observe(a):
     from pyphysim.reference_signals.zadoffchu import calcBaseZC, get_extended_ZF
     op = a["op"]
     if op == "zc":
-        return dict(a, e=quant(calcBaseZC(a["n"], a["u"]), a["n"]))
+        return dict(a, e=quant(calcBaseZC(a["n"], a["u"], a["q"]), a["n"]))
     if op == "ext":
         out = np.asarray(get_extended_ZF(np.arange(a["n"]), a["size"]))
         return dict(a, src=[int(v) for v in out])
-    root = RootSequence(root_index=a["u"], size=a["size"])
+    if op == "root" and a["given"]:
+        root = RootSequence(root_index=a["u"], size=a["size"], Nzc=a["given"])
+    else:
+        root = RootSequence(root_index=a["u"], size=a["size"])
     if op == "root":
         return dict(a, nzc=int(root.Nzc), len=int(root.size), e=quant(root.seq_array(), int(root.Nzc)))
     D = 8 if a["fam"] == "srs" else 12
@@ -65,15 +68,20 @@ def choose(rng):
     op = ["zc", "ext", "root", "root", "ue", "ue"][rng.randint(6)]
     if op == "zc":
         n = int([2 * rng.randint(1, 31) + 1, 2 * rng.randint(1, 600) + 1, rng.randint(3, 400)][rng.randint(3)])
-        return {"op": "zc", "n": n, "u": int(rng.randint(1, n))}
+        return {"op": "zc", "n": n, "u": int(rng.randint(1, n)), "q": int(rng.randint(-3, 4)) * int(rng.randint(2))}
     if op == "ext":
         n = 2 * int(rng.randint(1, 60)) + 1
         return {"op": "ext", "n": n, "size": int(rng.randint(n, 4 * n + 2))}
     size = int(rng.randint(25, 1201))
+    if op == "root" and rng.randint(4) == 0:
+        # explicit base length (any odd length below the size; the extension may wrap several times)
+        given = 2 * int(rng.randint(6, max(7, size // 2))) + 1
+        given = min(given, size if size % 2 else size - 1)
+        return {"op": "root", "size": size, "u": int(rng.randint(1, given)), "given": given}
     have = RootSequence(root_index=1, size=size).Nzc          # a root index the code accepts for this size
     u = int(rng.randint(1, have))
     if op == "root":
-        return {"op": "root", "size": size, "u": u}
+        return {"op": "root", "size": size, "u": u, "given": 0}
     fam = ["srs", "dmrs"][rng.randint(2)]
     D = 8 if fam == "srs" else 12
     cover = [] if fam == "srs" else [[], [1, 1], [1, -1], [-1, 1], [-1, -1]][rng.randint(5)]
